@@ -5,6 +5,7 @@ import VaxisModel.Model.Blocks
 import VaxisModel.Model.Placements
 import VaxisModel.Model.ImageDraw
 import VaxisModel.Model.Scaler
+import VaxisModel.Model.KittyTerm
 import VaxisModel.Spec.Images
 
 /-! Driver for C20.  Lines (`op<TAB>impl` → `model-canon<TAB>impl-canon<TAB>verdict`), see
@@ -21,7 +22,13 @@ harness/cmd/C20/main.go for the ops.
   transparent enough, nothing outside the window).
 * `knew|kimg|kresize|kdraw|simg|sresize|sdraw|kclear|krender|krefresh`: model = `Placements` + `protoCellSize`;
   verdict = the spec's diff against the previous frame (`Spec.Images.mustWrite/mustDelete`) on the
-  graphics sequences the implementation wrote.
+  graphics sequences the implementation wrote.  Round 4: the model's render is `KittyTerm.renderGen` (the placement
+  stretch of `render` interpreted in source order) followed by `KittyTerm.emit` (the regenerated `writeTo` body), its
+  ordered command list is compared with the implementation's (`Q=`); and the oracle runs the order-sensitive terminal
+  model `KittyTerm.Term` on the IMPLEMENTATION's ordered command list: every `a=p` must find the data of the image's
+  last successful `Resize` on the terminal, and after every frame the terminal's placement table must hold exactly
+  the (image, origin) pairs the application drew (frames with one image twice at one origin in two sizes excepted).
+  `half|full…`: the coordinates of the cells come from the regenerated `Draw` loop (`KittyTerm.loopCoords`).
 -/
 namespace VaxisModel.Driver.C20
 open VaxisModel.Driver VaxisModel.Model.ImageFit VaxisModel.Spec.Images
@@ -151,11 +158,17 @@ def blockModel (half : Bool) (kind : Scaler.Kind) (W H : Nat) (px : Array Pix8) 
     let cells := if half then Blocks.halfCells view else Blocks.fullCells view
     let width := childExtent col ww screenW
     let height := childExtent row wh screenH
-    let drawn := cells.filter fun (x, y, c) =>
-      (x : Int) < width && (y : Int) < height && col + x < screenW && row + y < screenH &&
+    -- `Draw`: the coordinates come from the regenerated loop (round 4), one iteration per stored cell
+    let lp := if half then Gen.ImageConsts.halfDrawLoop else Gen.ImageConsts.fullDrawLoop
+    let wantForm : Gen.ImageConsts.CellForm := if half then .stored else .spaceOnStoredBg
+    let coords := (List.range cells.length).map fun i => KittyTerm.loopCoords lp img.w i
+    if !lp.rangeCells || !lp.extra.isEmpty || lp.cell != wantForm || coords.any (·.isNone) then size ++ ";unknown-draw-loop" else
+    let placed : List (Int × Int × BCell) := (cells.zip coords).filterMap fun (e, xy) => xy.map fun (x, y) => (x, y, e.2.2)
+    let drawn := placed.filter fun (x, y, c) =>
+      0 ≤ x && 0 ≤ y && x < width && y < height && col + x < screenW && row + y < screenH &&
       c != (⟨0x20, 0, 0⟩ : BCell)
     -- screen order = row major; the cell list is row major within the image already
-    size ++ String.join (drawn.map fun (x, y, c) => ";" ++ showBCell (col + x) (row + y) c)
+    size ++ String.join (drawn.map fun (x, y, c) => ";" ++ showBCell (col + x.toNat) (row + y.toNat) c)
 
 structure ICell where
   x : Nat
@@ -328,6 +341,7 @@ structure KImg where
   uploaded : Bool := false   -- `k.uploaded`
   pending : Nat := 0         -- encodings accumulated in `k.buf` (Resize appends, the upload resets)
   need : Bool := false       -- oracle side: the implementation reported a successful encode not yet seen in `U=`
+  implPx : String := ""      -- oracle side: pixel size `WxH` of the implementation's last successful encode ("" = none yet)
 
 structure St where
   active : Bool := false
@@ -342,6 +356,14 @@ structure St where
   prev : List Placement := []
   pending : Bool := true
   implNext : Nat := 0                   -- entries of the implementation's next-frame list after the previous op
+  -- model side (round 4): `k.buf` / `k.uploaded` of every image (by id), pixel size of every encoding (by serial)
+  kb : Nat → KittyTerm.KBuf := fun _ => {}
+  encPx : Array String := #[]
+  -- oracle side (round 4): the terminal's tables as the implementation's commands leave them; keys ever placed;
+  -- whether some frame so far held one image twice at one origin in two sizes (see `Props.C20Term.keyfun_needed`)
+  term : KittyTerm.Term := KittyTerm.Term.empty
+  seenKeys : List KittyTerm.Key := []
+  tainted : Bool := false
 
 def St.img? (s : St) (n : Nat) : Option (Nat × KImg) :=
   match s.imgs.findIdx? (·.1 == n) with
@@ -394,6 +416,51 @@ def renderVerdict (isSixel : Nat → Bool) (prev : List Placement) (f : Frame) (
   | _, _ => "FAIL unparsable result"
 
 def bad : String := "bad-op\tbad-op\tbad-op"
+
+/-- `"<id>@<col>,<row>"`. -/
+def parseAt (t : String) : Option (Nat × Int × Int) :=
+  match t.splitOn "@" with
+  | [id, cr] =>
+    match id.toNat?, cr.splitOn "," with
+    | some id, [c, r] => match c.toInt?, r.toInt? with | some c, some r => some (id, c, r) | _, _ => none
+    | _, _ => none
+  | _ => none
+
+/-- Image data is identified by the pixel size of the PNG transmitted (`"WxH"`; 0 = undecodable). -/
+def dataCode (dims : String) : Nat :=
+  match dims.splitOn "x" with
+  | [a, b] => match a.toNat?, b.toNat? with | some a, some b => a * 1000003 + b + 1 | _, _ => 0
+  | _ => 0
+
+def keyFunB (l : List Placement) : Bool :=
+  l.all fun p => l.all fun q => !(KittyTerm.key p == KittyTerm.key q) || p == q
+
+/-- **Order-sensitive terminal oracle** on the implementation's ordered command list of one frame (`Q=`): returns the
+    terminal afterwards, the keys placed, and the first complaint about an `a=p` that found stale / no data. -/
+def runImplCmds (want : Nat → String) (t : KittyTerm.Term) (toks : List String) : KittyTerm.Term × List KittyTerm.Key × Option String :=
+  toks.foldl (fun (acc : KittyTerm.Term × List KittyTerm.Key × Option String) tok =>
+    let (t, keys, why) := acc
+    if tok.startsWith "p" then
+      match parseAt (tok.drop 1).toString with
+      | some (id, c, r) =>
+        let w := want id
+        let why := why.orElse fun _ =>
+          if w ≠ "" ∧ t.data id ≠ some (dataCode w) then
+            some s!"image {id} placed at {c},{r} while the terminal holds {match t.data id with | none => "no data" | some _ => "older data"} for it: its last Resize produced {w} px"
+          else none
+        (t.apply (.place ⟨id, c, r, 0, 0⟩), (id, c, r) :: keys, why)
+      | none => acc
+    else if tok.startsWith "d" then
+      match parseAt (tok.drop 1).toString with
+      | some k => (t.apply (.delete k), keys, why)
+      | none => acc
+    else if tok.startsWith "t" then
+      match (tok.drop 1).toString.splitOn ":" with
+      | [id, dims] => match id.toNat? with
+        | some id => (t.apply (.transmit id (dataCode dims)), keys, why)
+        | none => acc
+      | _ => acc
+    else acc) (t, [], none)
 
 /-- Spec of the cell pixel size (independent of the model): the reported quotient, at least 1. -/
 def specCell (pix cells : Nat) : Nat := if cells = 0 then 1 else max 1 (pix / cells)
@@ -511,7 +578,15 @@ def kstep (s : St) (op : List String) (impl : String) : St × String :=
           | .error _ => ("panic", k)
         let (verdict, cw, chh) := resizeVerdict s.xpix s.cols s.ypix s.rows k.wPix k.hPix w h impl
         let encoded := impl ≠ "panic" ∧ !(fields impl).contains "noencode"
-        (s.setImg n { k1 with iw := cw, ih := chh, need := k1.need || encoded }, s!"{mcanon}\t{impl}\t{verdict}")
+        -- model (round 4): a successful encode runs the regenerated upload statements of `Resize` on the image's state
+        let modelEncoded := k1.pending > k.pending
+        let id := ((s.img? n).map (·.1)).getD 0
+        let s1 : St := if modelEncoded then
+            { s with kb := KittyTerm.update s.kb id (KittyTerm.resizeGen (s.kb id) s.encPx.size),
+                     encPx := s.encPx.push (((fields mcanon)[2]?.getD "px=?").drop 3).toString }
+          else s
+        let implPx := if encoded then (((fields impl)[2]?.getD "px=?").drop 3).toString else k1.implPx
+        (s1.setImg n { k1 with iw := cw, ih := chh, need := k1.need || encoded, implPx := implPx }, s!"{mcanon}\t{impl}\t{verdict}")
     | _, _, _ => (s, bad)
   | "kdraw" :: n :: c :: r :: win =>
     match natList? [n, c, r], (match win with | [] => some ((-1 : Int), (-1 : Int)) | [a, b] => (match a.toInt?, b.toInt? with | some a, some b => some (a, b) | _, _ => none) | _ => none) with
@@ -546,20 +621,21 @@ def kstep (s : St) (op : List String) (impl : String) : St × String :=
   | [k] =>
     if k = "krender" ∨ k = "krefresh" then
       let isRefresh := k = "krefresh"
-      let (ps, out) := Placements.stepGen s.ps (if isRefresh then .refresh else .render)
-      let out := out.getD ⟨[], []⟩
-      -- uploads: image data goes out with the first placement after a successful encode
-      let (imgs, ups) := out.writes.foldl (fun (acc : List (Nat × KImg) × List String) p =>
-        match acc.1[p.id - 1]? with
-        | some (n, k) =>
-          if !k.sixel && !k.uploaded then
-            (acc.1.set (p.id - 1) (n, { k with uploaded := true, pending := 0 }),
-             acc.2 ++ List.replicate k.pending (toString p.id))
-          else acc
-        | none => acc) (s.imgs, [])
       let isSixel (id : Nat) : Bool := (s.imgs[id - 1]?).any (·.2.sixel)
+      -- model (round 4): the placement stretch of `render` interpreted in SOURCE ORDER, then every event through the
+      -- regenerated `writeTo` body of its image: an ordered command list
+      let (ps, evs) := KittyTerm.renderGen (if isRefresh then { s.ps with refresh := true } else s.ps)
+      let (kb, cmds) := KittyTerm.emit (fun id => !isSixel id) Gen.ImageConsts.kittyWriteBody s.kb evs
+      let showCmd : KittyTerm.Cmd → String
+        | .transmit id e => s!"t{id}:{s.encPx[e]?.getD "?"}"
+        | .place p => "p" ++ showPshort p
+        | .delete k => s!"d{k.1}@{k.2.1},{k.2.2}"
+        | .sixel p => s!"S@{p.col},{p.row}"
+        | .unknown => "unknown-statement"
+      let ups := cmds.filterMap fun | .transmit id _ => some (toString id) | _ => none
+      let imgs := s.imgs
       let showW (p : Placement) : String := if isSixel p.id then s!"S@{p.col},{p.row}" else showPshort p
-      let mcanon := s!"D={showList showPshort (out.deletes.filter fun p => !isSixel p.id)} W={showList showW out.writes} U={showStrs ups} {snap ps}"
+      let mcanon := s!"D={showList showPshort ((KittyTerm.evDeletes evs).filter fun p => !isSixel p.id)} W={showList showW (KittyTerm.evWrites evs)} U={showStrs ups} Q={showStrs (cmds.map showCmd)} {snap ps}"
       let frame : Frame := ⟨s.cur, s.pending || isRefresh⟩
       let verdict := renderVerdict isSixel s.prev frame impl
       -- upload oracle (on the implementation's `U=` and `W=`): image data goes out with the first transmitted placement after a
@@ -574,7 +650,26 @@ def kstep (s : St) (op : List String) (impl : String) : St × String :=
         | _, _ => "ok"
       let verdict := if verdict = "ok" then upVerdict else verdict
       let imgs := imgs.zipIdx.map fun (p, i) => if implU.contains (i + 1) then (p.1, { p.2 with need := false }) else p
-      ({ s with ps := ps, imgs := imgs, prev := s.cur, pending := false }, s!"{mcanon}\t{impl}\t{verdict}")
+      -- terminal oracle (round 4, independent of the model): the implementation's commands IN THE ORDER WRITTEN on the
+      -- order-sensitive terminal tables
+      let want (id : Nat) : String := ((s.imgs[id - 1]?).map (·.2.implPx)).getD ""
+      let (term, keys, stale) := runImplCmds want s.term ((getField impl "Q").getD [])
+      let kcur := s.cur.filter fun p => !isSixel p.id
+      let tainted := s.tainted || !keyFunB kcur
+      let seen := (keys ++ s.seenKeys).eraseDups
+      let tableVerdict : String :=
+        match stale with
+        | some why => "FAIL " ++ why
+        | none =>
+          if tainted then "ok" else
+          match (seen ++ kcur.map KittyTerm.key).find? fun k => (term.places k).isSome != kcur.any (fun p => KittyTerm.key p == k) with
+          | some k =>
+            if (term.places k).isSome then s!"FAIL after this frame the terminal still shows image {k.1} at {k.2.1},{k.2.2} although the frame does not hold it"
+            else s!"FAIL after this frame the terminal does not show image {k.1} at {k.2.1},{k.2.2} although the frame holds it (removed after it was placed, or never placed)"
+          | none => "ok"
+      let verdict := if verdict = "ok" then tableVerdict else verdict
+      ({ s with ps := ps, imgs := imgs, kb := kb, prev := s.cur, pending := false, term := term, seenKeys := seen, tainted := tainted },
+       s!"{mcanon}\t{impl}\t{verdict}")
     else (s, bad)
   | _ => (s, bad)
 
